@@ -101,6 +101,8 @@ def gen_op(rng):
         names = set()
         for _ in range(rng.randint(0, 4)):
             n, s = rbytes(rng) or b"m", rng.choice([b"", b"", rbytes(rng)])
+            if rng.random() < 0.12:
+                n = b""          # the empty name (what an ignore rule renames a metric to): a metric like any other
             if (n, s) in names:
                 continue
             names.add((n, s))
